@@ -1,5 +1,5 @@
 (* GENERATED on every run from /repo by harness/lib/gentables.py (hook `yardl-verif tables`). Do not edit. *)
-From Coq Require Import NArith List.
+From Coq Require Import NArith List String.
 Import ListNotations.
 From YV Require Import Model.Binary.
 Open Scope N_scope.
@@ -236,6 +236,10 @@ Definition json_kind_decl (p : prim) : N :=
   | PTime => 4
   | PDateTime => 4
   end.
+
+(* types.go:primitiveTypes aliases *)
+Definition prim_aliases : list (String.string * prim) :=
+  [("byte"%string, PUint8); ("int"%string, PInt32); ("uint"%string, PUint32); ("long"%string, PInt64); ("ulong"%string, PUint64); ("float"%string, PFloat32); ("double"%string, PFloat64); ("complexfloat"%string, PCFloat32); ("complexdouble"%string, PCFloat64)].
 
 Definition max_import_recursion_depth : nat := 10.
 
